@@ -29,12 +29,19 @@ def takeDigits : List Char → List Char × List Char
     else if c == '_' then takeDigits cs
     else ([], c :: cs)
 
+def hexVal (c : Char) : Nat :=
+  if c.isDigit then c.toNat - '0'.toNat
+  else if 'a'.toNat ≤ c.toNat && c.toNat ≤ 'f'.toNat then c.toNat - 'a'.toNat + 10
+  else if 'A'.toNat ≤ c.toNat && c.toNat ≤ 'F'.toNat then c.toNat - 'A'.toNat + 10
+  else 0
+
 def digitsToNat (ds : List Char) : Nat := ds.foldl (fun n c => n * 10 + (c.toNat - '0'.toNat)) 0
 
 /-- lex the text of one literal token (as rustc / proc_macro2 would have produced it) -/
 def lex (s : String) : NumLit :=
   let cs := s.toList
   match cs with
+  | 'b' :: '\'' :: '\\' :: 'x' :: h1 :: h2 :: '\'' :: rest => ⟨false, .byte, hexVal h1 * 16 + hexVal h2, 0, String.ofList rest⟩
   | 'b' :: '\'' :: c :: '\'' :: rest => ⟨false, .byte, c.toNat, 0, String.ofList rest⟩
   | '"' :: _ => ⟨false, .other, 0, 0, ""⟩
   | _ =>
